@@ -17,11 +17,11 @@ type abortKind int
 const (
 	abInfeasible abortKind = iota
 	abUnsupported
-	abPathEnd   // path ended early (after a panic finding, assume(false), ...)
-	abUnwind    // step budget exceeded
-	abKilled    // goroutine killed by the scheduler
-	abSolver    // solver failure
-	abDeadline  // harness deadline
+	abPathEnd  // path ended early (after a panic finding, assume(false), ...)
+	abUnwind   // step budget exceeded
+	abKilled   // goroutine killed by the scheduler
+	abSolver   // solver failure
+	abDeadline // harness deadline
 )
 
 type pathAbort struct {
@@ -42,17 +42,17 @@ type Input struct {
 }
 
 type Finding struct {
-	Property  string
-	Harness   string
-	AssertID  string
-	Kind      string // assert | panic | deadlock | leak | nontermination
-	Msg       string
-	Inputs    []InputValue
-	Known     string // known-finding id if this is within a known region
-	Decisions []int
-	Replayed  string // "", "reproduced", "not-reproduced"
+	Property       string
+	Harness        string
+	AssertID       string
+	Kind           string // assert | panic | deadlock | leak | nontermination
+	Msg            string
+	Inputs         []InputValue
+	Known          string // known-finding id if this is within a known region
+	Decisions      []int
+	Replayed       string // "", "reproduced", "not-reproduced"
 	orderDependent bool
-	ReplayOut string
+	ReplayOut      string
 }
 
 type InputValue struct {
@@ -83,28 +83,30 @@ type Stats struct {
 
 // HarnessRun holds what is shared across all paths of one harness.
 type HarnessRun struct {
-	Prog       *Program
-	Fn         *ssa.Function
-	Name       string
-	Property   string
-	Solver     *Solver
-	Stats      Stats
-	Findings   map[string]*Finding // by assert id
-	Reached    map[string]bool
-	Assumes    map[string]bool
-	Samples    []string
-	Errors     []string // inconclusive reasons
-	Deadline   time.Time
-	StepBudget int64
-	MaxPaths   int
-	FuncsSeen  map[string]bool
-	Stubs      map[string]bool
-	Known      map[string]KnownFinding
-	KnownSeen  map[string]string
-	Verbose    bool
-	AssertIDs  map[string]int // id -> times checked
-	CrossCheck []*Solver      // optional extra solvers for obligations
-	Disagree   []string
+	Prog          *Program
+	Fn            *ssa.Function
+	Name          string
+	Property      string
+	Solver        *Solver
+	Stats         Stats
+	Findings      map[string]*Finding // by assert id
+	Reached       map[string]bool
+	Assumes       map[string]bool
+	Samples       []string
+	Errors        []string // inconclusive reasons
+	Deadline      time.Time
+	StepBudget    int64
+	MaxPaths      int
+	FuncsSeen     map[string]bool
+	Stubs         map[string]bool
+	Known         map[string]KnownFinding
+	KnownSeen     map[string]string
+	Verbose       bool
+	AssertIDs     map[string]int // id -> times checked
+	CrossCheck    []*Solver      // optional extra solvers for obligations
+	Disagree      []string
+	SharedGlobals map[*ssa.Global]*Loc
+	SharedInit    map[*ssa.Package]bool
 }
 
 // Exec is the state of one path.
